@@ -107,11 +107,7 @@ CursorTags(src, rd, steps, i) ==
                         [] op = "sub"   -> st.newlen = n /\ st.newempty = (n = 0)
                         [] OTHER -> TRUE
          IN IF ~retOk THEN <<"cursor-result">>
-            ELSE IF Poisons(rd, id, op, n)
-              \* position unconstrained after a refused slice request: adopt what is reported,
-              \* it can only have stayed or moved forward
-              THEN IF st.len > RemOf(rd[id]) THEN <<"cursor-position">>
-                   ELSE CursorTags(src, [rd EXCEPT ![id].from = rd[id].to - st.len], steps, i + 1)
+            \* (a refused slice request leaves a plain cursor where it was: After() = rd in that case)
             ELSE IF st.len # RemOf(nx[id]) \/ st.empty # (RemOf(nx[id]) = 0) THEN <<"cursor-position">>
             ELSE CursorTags(src, nx, steps, i + 1)
 
